@@ -1,6 +1,7 @@
 import OrbitModel.Driver.Transport
 import OrbitModel.Model.Path
 import OrbitModel.Model.Lifecycle
+import OrbitModel.Model.OpenCreate
 /-!
 # Driver: address lines (C14) and snapshot lines (C13)
 -/
@@ -14,7 +15,33 @@ structure AddrWorld where
   local_  : List (Nat × String) := []               -- (peer, root) with a local manifest marker
   info    : List (String × String × String) := []   -- root ↦ (type, write list)
   last    : Option (String × String) := none        -- root, path of the last created database
+  /-- the `Create`/`Open` model (`Model/OpenCreate.lean`): per-peer local databases, shared manifests -/
+  ocLocal : List (Nat × List Addr) := []
+  ocNet   : List (String × OC.Manifest) := []
+  /-- manifest hash observed for (name|type|write list): the `H` the model is run with -/
+  ocHash  : List (String × String) := []
 deriving Inhabited
+
+def ocKey (name ty : String) (acl : List String) : String := name ++ "|" ++ ty ++ "|" ++ ",".intercalate acl
+
+def AddrWorld.H (aw : AddrWorld) (name ty : String) (acl : List String) : String :=
+  match aw.ocHash.find? (fun (x : String × String) => x.1 == ocKey name ty acl) with
+  | some x => x.2
+  | none => "@unknown@"
+
+def AddrWorld.ocState (aw : AddrWorld) (p : Nat) : OC.St :=
+  { self := toString p, types := ["keyvalue", "docstore", "eventlog"],
+    «local» := match aw.ocLocal.find? (fun (x : Nat × List Addr) => x.1 == p) with | some x => x.2 | none => [],
+    net := aw.ocNet }
+
+def AddrWorld.ocPut (aw : AddrWorld) (p : Nat) (s : OC.St) : AddrWorld :=
+  { aw with ocLocal := (p, s.local) :: aw.ocLocal.filter (fun (x : Nat × List Addr) => x.1 != p), ocNet := s.net }
+
+def aclList (acl : String) : List String :=
+  if acl == "default" then [] else if acl == "*" then ["*"] else commaList acl
+
+def sortedAcl (l : List String) : String :=
+  if l == ["*"] then "*" else ",".intercalate ((sortNums (l.map (fun t => natOr t 0))).map toString)
 
 def storeType (k : String) : String :=
   match k with | "kv" => "keyvalue" | "doc" => "docstore" | "log" => "eventlog" | x => x
@@ -67,6 +94,24 @@ def onCreated (w : World) (aw : AddrWorld) (toks : List String) : World × AddrW
   let knownRoot := (aw.roots.find? (·.1 == key)).map (·.2)
   let haveLocal := match knownRoot with | some r => aw.local_.contains (p, r) | none => false
   let expectOk := model.isSome && (!haveLocal || overwrite)
+  -- the Create/Open model, run with the manifest hash the implementation reports (or has reported)
+  let st0 := aw.ocState p
+  let wl := OC.effAcl st0.self (aclList acl)
+  let aw := if toks.getD 2 "" != "err" && !(aw.ocHash.any (fun (x : String × String) => x.1 == ocKey name (storeType kind) wl)) then
+      { aw with ocHash := (ocKey name (storeType kind) wl, s!"@{arg toks "root"}@") :: aw.ocHash } else aw
+  let (mres, st1) := OC.createDB isCidTok aw.H st0 name (storeType kind) (aclList acl) overwrite
+  let aw := aw.ocPut p st1
+  let w := match mres with
+    | .ok (a, ty, mwl) =>
+      if toks.getD 2 "" == "err" then w.fail "corr" "create" s!"Create('{name}') by peer {p}: model succeeds ({a.root}/{a.path}), implementation refuses"
+      else
+        let w := if a.root != s!"@{arg toks "root"}@" || a.path != unhex (arg toks "path") then
+            w.fail "corr" "create" s!"Create('{name}'): model address {a.root}/{a.path}, implementation {arg toks "root"}/{unhex (arg toks "path")}" else w
+        if ty != arg toks "type" || sortedAcl mwl != arg toks "write" then
+          w.fail "corr" "create" s!"Create('{name}'): model store {ty} writable by {sortedAcl mwl}, implementation {arg toks "type"} writable by {arg toks "write"}" else w
+    | .error e =>
+      -- (a hash never observed = a name the implementation has always refused: nothing to compare)
+      if toks.getD 2 "" != "err" then w.fail "corr" "create" s!"Create('{name}') by peer {p}: model refuses ({repr e}), implementation succeeds" else w
   if toks.getD 2 "" == "err" then
     (if expectOk then w.fail "C14" "create" s!"Create('{name}') by peer {p} refused although the name is valid and no local database exists (or overwrite was set)" else w, aw)
   else
@@ -89,6 +134,17 @@ def onOpened (w : World) (aw : AddrWorld) (toks : List String) : World × AddrWo
   | some (root, path) =>
     let haveLocal := aw.local_.contains (q, root)
     let expectOk := !localonly || haveLocal
+    let st0 := aw.ocState q
+    let (mres, st1) := OC.openDB isCidTok aw.H st0 (joinAddr s!"@{root}@" path) localonly false "" false
+    let aw := aw.ocPut q st1
+    let w := match mres with
+      | .ok (a, ty, mwl) =>
+        if toks.getD 2 "" == "err" then w.fail "corr" "open" s!"peer {q}: model opens {root}/{path}, implementation refuses"
+        else if a.root != s!"@{arg toks "root"}@" || ty != arg toks "type" || sortedAcl mwl != arg toks "write" then
+          w.fail "corr" "open" s!"peer {q}: model opens {a.root} as {ty} writable by {sortedAcl mwl}, implementation {arg toks "root"} as {arg toks "type"} writable by {arg toks "write"}"
+        else w
+      | .error e =>
+        if toks.getD 2 "" != "err" then w.fail "corr" "open" s!"peer {q}: model refuses to open {root}/{path} ({repr e}), implementation succeeds" else w
     if toks.getD 2 "" == "err" then
       (if expectOk then w.fail "C14" "open" s!"peer {q} could not open {root}/{path}" else w, aw)
     else
